@@ -54,12 +54,15 @@ CFG = {
                  ("SurfaceOrientThorough.cfg", 3, None)],
 }
 NEGATIVE = {
-    "quick": [("NegNoTouchRaises.cfg", "CellsJoinSameCoords"), ("NegValuelessChild.cfg", "LengthsAgree")],
+    "quick": [("NegNoTouchRaises.cfg", "CellsJoinSameCoords"), ("NegValuelessChild.cfg", "LengthsAgree"),
+              ("NegGrowKeepsCachedLength.cfg", "LengthsAgree")],
     "thorough": [("NegNoTouchRaises.cfg", "CellsJoinSameCoords"), ("NegValuelessChild.cfg", "LengthsAgree"),
-                 ("NegZombieChain.cfg", "LengthsAgree"), ("NegEmptyUnreadable.cfg", "LengthsAgree")],
+                 ("NegZombieChain.cfg", "LengthsAgree"), ("NegEmptyUnreadable.cfg", "LengthsAgree"),
+                 ("NegGrowKeepsCachedLength.cfg", "LengthsAgree")],
 }
 # as-built deviations named in the spec
-DEVIATIONS = ["NoTouchRaises", "ValuelessChildBreaksRemoval", "RefusedAddLeavesChild", "EmptyValuesUnreadable"]
+DEVIATIONS = ["NoTouchRaises", "ValuelessChildBreaksRemoval", "RefusedAddLeavesChild", "EmptyValuesUnreadable",
+              "GrowKeepsCachedLength"]
 
 
 # ------------------------------------------------------------------ tokens <-> concrete values
@@ -344,6 +347,10 @@ class Runner:
                 child.copy(parent=twin, mask=np.array(lab["mask"], dtype=bool))
                 source = self.obj
                 self.obj = twin
+            elif act == "GrowVertices":
+                # assign a longer vertices array that keeps the existing rows as its prefix (k = -1: one row less)
+                toks = lab["verts"] if lab["k"] > 0 else lab["verts"][:-1]
+                self.obj.vertices = np.array([coord(t) for t in toks], dtype=float).reshape(-1, 3)
             elif act == "ReadParts":
                 _ = self.obj.parts  # computes and caches Curve._parts; nothing may change
             elif act == "CopyClearCache":
@@ -586,7 +593,7 @@ def run(tier, seed):
     needed = [f"act:{a}:{o}" for a in ("AddData", "SetValues", "RemoveVertices", "RemoveCells", "MaskedCopy")
               for o in ("ok", "refused")] + ["act:Reopen:ok", "act:CellMaskedCopy:ok", "act:CopyClearCache:ok",
                                                "act:ReadParts:ok", "act:DataMaskedCopy:ok",
-                                               "act:DataMaskedCopy:refused"]
+                                               "act:DataMaskedCopy:refused", "act:GrowVertices:ok", "act:GrowVertices:refused"]
     missing = [k for k in needed if not stats.get(k)]
     if missing:
         raise MachineryError(f"never exercised: {missing}")
